@@ -79,13 +79,14 @@ def paths_of(t, prefix=()):
 def history(rng, tier, refs=False, reads=False, flavour="c10"):
     ops = []
     sg = Groups(NREGS)   # static alias groups: SetChild must not attach relatives (that would build a cyclic structure)
+    attached = set()     # registers holding a config that already has a parent (attaching it again is known finding D20)
     live = []          # registers that hold a config (statically assumed)
     shapes = {}        # reg -> a plain tree approximating its content (for picking names)
     copts = [opt("PathSep", ".")] + ([opt("VarExp")] if refs else [])
     def new_plain(r):
         t = tree(rng, 3, refs, top=True)
         ops.append({"op": "new", "r": r, "from": t, "opts": copts}); shapes[r] = t
-        sg.fresh(r)
+        sg.fresh(r); attached.discard(r)
         if r not in live: live.append(r)
     new_plain(0)
     new_plain(1)
@@ -102,11 +103,12 @@ def history(rng, tier, refs=False, reads=False, flavour="c10"):
             t = tree(rng, 2, refs, top=True)
             ops.append({"op": "merge", "r": r, "from": t, "opts": copts + pol})
         elif k == "merge-reg":
-            others = [x for x in live if x != r]
+            # (merging a config into its own descendant or ancestor is left out: the source changes under the iteration)
+            others = [x for x in live if x != r and not sg.same(x, r)]
             if others:
                 ops.append({"op": "merge", "r": r, "from": {"reg": rng.pick(others), **({"rep": "val"} if rng.chance(0.2) else {})}, "opts": copts + pol})
         elif k in ("merge-embed", "new-embed"):
-            others = [x for x in live if x != r] if k == "merge-embed" else list(live)
+            others = [x for x in live if x != r and not sg.same(x, r)] if k == "merge-embed" else list(live)
             used = set()
             t = embed(rng, tree(rng, 2, refs, top=True), others, used)
             if not used and others:
@@ -117,7 +119,7 @@ def history(rng, tier, refs=False, reads=False, flavour="c10"):
             else:
                 to = rng.pick([x for x in range(NREGS) if x not in used] or [NREGS - 1])
                 ops.append({"op": "new", "r": to, "from": t, "opts": copts})
-                sg.fresh(to)
+                sg.fresh(to); attached.discard(to)
                 if to not in live: live.append(to)
                 shapes[to] = None
         elif k == "set":
@@ -130,14 +132,14 @@ def history(rng, tier, refs=False, reads=False, flavour="c10"):
             nm = rng.pick(names + ["l.0", "l.1", "a", "e1", "l"])
             to = rng.pick([x for x in range(NREGS) if x != r])
             ops.append({"op": "child", "r": r, "name": nm, "idx": rng.pick([-1, -1, 0, 1]), "to": to, "opts": copts})
-            sg.fresh(to); sg.join(to, r)
+            sg.fresh(to); sg.join(to, r); attached.add(to)
             if to not in live: live.append(to)
             shapes[to] = None
         elif k == "setchild":
-            others = [x for x in live if x != r and not sg.same(x, r)]
+            others = [x for x in live if x != r and not sg.same(x, r) and x not in attached]
             if others:
                 ch = rng.pick(others)
-                sg.join(ch, r)
+                sg.join(ch, r); attached.add(ch)
                 ops.append({"op": "setchild", "r": r, "name": rng.pick(["k", "a", "l", "a.b", "l.1"]), "idx": rng.pick([-1, -1, 0, 1, 3]), "child": ch,
                             "opts": [opt("PathSep", ".")]})
         elif k == "read":
@@ -260,6 +262,7 @@ def analyze(case, impl):
     ops = case["ops"]
     n = case.get("regs", NREGS)
     groups = Groups(n)
+    reattached = set()
     prev = [None] * n
     for si, (op, st) in enumerate(zip(ops, steps)):
         if "panic" in st:
@@ -276,6 +279,9 @@ def analyze(case, impl):
             groups.fresh(op["to"]); groups.join(op["to"], r)
         if kind == "setchild":
             groups.join(op["child"], r)
+            pc = prev[op["child"]]
+            if pc is not None and pc["fp"].get("p"):
+                reattached.add(pc["fp"]["id"])      # it already had a parent: the D20 class
         srcs = regs_in(op.get("from")) if kind in ("new", "merge") else set()
         # ---- C10: the sources of a merge are untouched, and share nothing with the destination afterwards
         for j in srcs:
@@ -309,7 +315,7 @@ def analyze(case, impl):
         # ---- C15: stored positions describe the structure
         # nodes attached at two positions at once (SetChild of an attached child: known finding D20) are outside the rule,
         # except in the known finding's own witness
-        dup = set() if case.get("strict") else aliased_positions(regs)
+        dup = set() if case.get("strict") else (aliased_positions(regs) | reattached)
         for j in range(n):
             R = regs[j]
             if R is None:
@@ -346,9 +352,10 @@ def analyze(case, impl):
                 # FlattenedKeys speaks in paths from the root of the tree the config is attached to
                 pre = R["path"] + "." if fp.get("p") and R["path"] else ""
                 want = sorted(pre + k for k in leaf_keys(fp))
-                if fp["id"] not in dup and sorted(R["keys"]) != want:
+                if not (all_ids(fp) & dup) and fp["id"] not in dup and sorted(R["keys"]) != want:
                     out.append(("C15", "step %d: FlattenedKeys of r%d = %s, the non-nil primitive settings are %s" % (si, j, sorted(R["keys"])[:8], want[:8]), si))
-        if kind == "diff" and "diff" in st and regs[r] is not None and regs[op["r2"]] is not None and pure(regs[r]["fp"]) and pure(regs[op["r2"]]["fp"]):
+        if kind == "diff" and "diff" in st and regs[r] is not None and regs[op["r2"]] is not None and pure(regs[r]["fp"]) and pure(regs[op["r2"]]["fp"]) \
+                and not ((all_ids(regs[r]["fp"]) | all_ids(regs[op["r2"]]["fp"])) & dup):
             def rooted(R):
                 pre = R["path"] + "." if R["fp"].get("p") and R["path"] else ""
                 return set(pre + k for k in leaf_keys(R["fp"]))
@@ -407,15 +414,62 @@ def canon_ids(res):
     return go(res)
 
 
+def strip_fp(n):
+    if n is None:
+        return None
+    out = {k: n[k] for k in ("id", "k", "f", "p", "v") if k in n}
+    if n.get("d"):
+        out["d"] = {k: strip_fp(c) for k, c in n["d"].items()}
+    if n.get("a"):
+        out["a"] = [strip_fp(c) for c in n["a"]]
+    return out
+
+
+def project_steps(steps, cut):
+    out = []
+    for st in steps[:cut]:
+        regs = []
+        for R in st.get("regs") or []:
+            regs.append(None if R is None else {"fp": strip_fp(R["fp"]), "path": R["path"], "parent": R["parent"]})
+        out.append(regs)
+    return out
+
+
+def canon_sorted(res):
+    """identities as small numbers in order of first appearance in a deterministic (key-sorted) traversal"""
+    table = {}
+    def cid(x):
+        if x == "" or x is None:
+            return x
+        if x not in table:
+            table[x] = "n%d" % len(table)
+        return table[x]
+    def go(v):
+        if isinstance(v, dict):
+            return {k: (cid(v[k]) if k in ("id", "p", "parent") and isinstance(v[k], str) else go(v[k])) for k in sorted(v)}
+        if isinstance(v, list):
+            return [go(x) for x in v]
+        return v
+    return go(res)
+
+
 def normalize_pair(case, impl, model):
-    """the part of the observation the model describes (nothing yet where the driver says `unmodelled`)"""
-    if isinstance(model, dict) and model.get("unmodelled"):
+    """the modelled prefix of the history: fingerprints (identities up to renaming, stored names and parents, values),
+    Path() and Parent() of every register after every step"""
+    if not isinstance(model, dict) or not isinstance(model.get("steps"), list) or not isinstance(impl, dict) or not isinstance(impl.get("steps"), list):
         return None, None
-    return project(impl), model
+    msteps = model["steps"]
+    cut = next((i for i, st in enumerate(msteps) if "unmodelled" in st), len(msteps))
+    # a step that panicked or a harness problem is not compared
+    cut = min(cut, len(impl["steps"]))
+    return canon_sorted(project_steps(impl["steps"], cut)), canon_sorted(project_steps(msteps, cut))
 
 
-def project(impl):
-    return canon_ids(impl)
+def modelled_prefix(model):
+    st = (model or {}).get("steps") if isinstance(model, dict) else None
+    if not isinstance(st, list):
+        return 0
+    return next((i for i, s in enumerate(st) if "unmodelled" in s), len(st))
 
 
 def wellformed_data(t):
